@@ -2035,7 +2035,14 @@ def symbolic_mode(query: Optional[SymbolicExpression] = None, mode: EQLMode = EQ
     :param query: Optional symbolic expression to also enter/exit as a context.
     """
     prev_mode = _symbolic_mode.get()
+    hidden_stack = None
     try:
+        if mode is None:
+            # an evaluation: user code (predicates, constructors of concluded instances) runs as if outside any block, also
+            # when evaluate() is called inside a block opened on a query - an expression the user code builds must not be
+            # attached to (or implicitly bound to the selected variable of) that query.
+            hidden_stack = SymbolicExpression._symbolic_expression_stack_
+            SymbolicExpression._symbolic_expression_stack_ = []
         if query is not None:
             query.__enter__(in_rule_mode=True)
             if mode == EQLMode.Rule and isinstance(query, ResultQuantifier):
@@ -2048,6 +2055,8 @@ def symbolic_mode(query: Optional[SymbolicExpression] = None, mode: EQLMode = EQ
     finally:
         if query is not None:
             query.__exit__()
+        if hidden_stack is not None:
+            SymbolicExpression._symbolic_expression_stack_ = hidden_stack
         _set_symbolic_mode(prev_mode)
 
 
